@@ -61,10 +61,19 @@ class C01(Check):
         for w, rh, modes in b["block_grids"]:
             for mode in modes:
                 out.append({"style": "block", "r_height": rh, "width": w, "mode": mode})
+        # animation frames handed out by an image iterator are render outputs too: they must have the image's rendered
+        # height at the time they are yielded (delegated to the resource-model harness of C11: dynamic size, environment
+        # change before the cached second pass)
+        for style in ("block", "kitty", "iterm2"):
+            out.append({"part": "iterator_frames", "style": style, "source": "file", "op": "iterate", "frames": 2, "all_modes": False, "repeat": 2, "cached": True, "dynamic": True})
         return out
 
     # ------------------------------------------------------------------ setup
     def setup(self, shape, concrete):
+        if shape.get("part") == "iterator_frames":
+            from .C11 import CHECK as C11C
+
+            return C11C.setup(shape, concrete)
         from PIL import Image
 
         from term_image.image import BlockImage, ITerm2Image, KittyImage, block, common, iterm2, kitty
@@ -77,6 +86,10 @@ class C01(Check):
         self.img = cls(Image.new("RGB", (1, 1)), width=1, height=1)
 
     def body(self, eng, shape):
+        if shape.get("part") == "iterator_frames":
+            from .C11 import CHECK as C11C
+
+            return C11C.body(eng, shape)
         style = shape["style"]
         if style == "block":
             from .C02 import block_render
